@@ -146,6 +146,10 @@ pub struct Case {
     pub t0: u64,
     pub births: Vec<(u32, u64)>,
     pub events: Vec<Ev>,
+    /// equal conditions of different spends are one and the same node of the tree handed
+    /// to parse_spends (as after back-reference decoding or interning of a generator)
+    #[serde(default)]
+    pub share_nodes: bool,
 }
 
 // ---------------------------------------------------------------- reference
@@ -258,7 +262,7 @@ impl Reference {
         }
         // not lock rules, but they decide whether the bundle parses at all
         if static_reject.is_none() {
-            let strict = case.flagset == 2 || case.flagset == 3;
+            let strict = case.flagset == 2 || case.flagset == 3 || case.flagset == 8;
             for (i, sp) in case.spends.iter().enumerate() {
                 if strict && sp.conds.iter().any(|c| c.extra_args > 0) {
                     static_reject = Some("extra_arguments_in_strict_mode");
@@ -481,6 +485,7 @@ fn list(a: &mut Allocator, items: &[NodePtr]) -> NodePtr {
 fn build_tree(a: &mut Allocator, case: &Case, b: &Built) -> NodePtr {
     let n = case.spends.len();
     let mut spends = vec![];
+    let mut shared: std::collections::BTreeMap<(u8, Vec<u8>, u8), NodePtr> = std::collections::BTreeMap::new();
     for i in 0..n {
         let sp = &case.spends[i];
         let mut conds = vec![];
@@ -542,13 +547,22 @@ fn build_tree(a: &mut Allocator, case: &Case, b: &Built) -> NodePtr {
                 let n = filler(a, f.1);
                 conds.push(n);
             }
+            let key = (c.kind.opcode(), parse_hex(&c.arg), c.extra_args);
+            if case.share_nodes {
+                if let Some(node) = shared.get(&key) {
+                    conds.push(*node);
+                    continue;
+                }
+            }
             let op = a.new_atom(&[c.kind.opcode()]).unwrap();
             let arg = a.new_atom(&parse_hex(&c.arg)).unwrap();
             let mut items = vec![op, arg];
             for e in 0..c.extra_args {
                 items.push(a.new_atom(&[0x40 + e]).unwrap());
             }
-            conds.push(list(a, &items));
+            let node = list(a, &items);
+            shared.insert(key, node);
+            conds.push(node);
         }
         for f in sp.fillers.iter().filter(|f| f.0 as usize >= sp.conds.len()) {
             let n = filler(a, f.1);
@@ -573,6 +587,21 @@ fn flags_of(case: &Case) -> ConsensusFlags {
         3 => MEMPOOL_MODE | ConsensusFlags::COST_CONDITIONS | ConsensusFlags::DONT_VALIDATE_SIGNATURE,
         4 => ConsensusFlags::NO_UNKNOWN_CONDS | ConsensusFlags::DONT_VALIDATE_SIGNATURE,
         5 => ConsensusFlags::LIMIT_SPENDS | ConsensusFlags::COST_CONDITIONS | ConsensusFlags::DONT_VALIDATE_SIGNATURE,
+        // everything a node sets after the latest forks (from the real flag derivation)
+        7 => {
+            let mut k = TEST_CONSTANTS.clone();
+            k.hard_fork2_height = 1;
+            k.soft_fork8_height = 2;
+            k.soft_fork9_height = 3;
+            chia_consensus::spendbundle_validation::get_flags_for_height_and_constants(10, &k) | ConsensusFlags::DONT_VALIDATE_SIGNATURE
+        }
+        8 => {
+            let mut k = TEST_CONSTANTS.clone();
+            k.hard_fork2_height = 1;
+            k.soft_fork8_height = 2;
+            k.soft_fork9_height = 3;
+            chia_consensus::spendbundle_validation::get_flags_for_height_and_constants(10, &k) | MEMPOOL_MODE | ConsensusFlags::DONT_VALIDATE_SIGNATURE
+        }
         // signature validation switched on: the identity signature is valid when there is no AGG_SIG condition
         _ if !has_agg_sig => ConsensusFlags::COST_CONDITIONS,
         _ => ConsensusFlags::COST_CONDITIONS | ConsensusFlags::DONT_VALIDATE_SIGNATURE,
@@ -929,6 +958,17 @@ impl Engine for C03 {
                 if parent_spend.is_some() && kind.is_relative_or_birth() && rng.chance(2, 3) {
                     kind = *rng.pick(&[Kind::HAbs, Kind::SAbs, Kind::BHAbs, Kind::BSAbs]);
                 }
+                // sometimes exactly the condition another spend already carries
+                if !spends.is_empty() && rng.chance(1, 6) {
+                    let other: &Spend = &spends[rng.usize_below(spends.len())];
+                    if !other.conds.is_empty() {
+                        let c = other.conds[rng.usize_below(other.conds.len())].clone();
+                        if !(parent_spend.is_some() && c.kind.is_relative_or_birth()) || rng.chance(1, 3) {
+                            conds.push(c);
+                            continue;
+                        }
+                    }
+                }
                 let arg = gen_arg(rng, kind, &anchors);
                 if let Cls::Val(v) = classify(&arg, kind.width()) {
                     anchors.push(v);
@@ -991,12 +1031,13 @@ impl Engine for C03 {
         }
         let mut case = Case {
             mempool_visitor: rng.chance(1, 2),
-            flagset: rng.below(7) as u8,
+            flagset: rng.below(9) as u8,
             spends,
             h0: 0,
             t0: 0,
             births: vec![],
             events: vec![],
+            share_nodes: rng.chance(1, 3),
         };
         let reference = Reference::new(&case);
         // coin births relative to the asserted values
@@ -1185,6 +1226,11 @@ impl Engine for C03 {
         if case.mempool_visitor {
             let mut c = case.clone();
             c.mempool_visitor = false;
+            out.push(c);
+        }
+        if case.share_nodes {
+            let mut c = case.clone();
+            c.share_nodes = false;
             out.push(c);
         }
         out
